@@ -1,7 +1,7 @@
 (* EXTRACT-F: c11 frun_c11 *)
 (* Wire decoding + entry point of the C11 correspondence: the abstract description, the two geometric oracles
    and the conductivities come in; everything Geometry derives goes out. *)
-From OM Require Import Base.Lists Base.Ops Base.Wire Geom.GeomModel Geom.CondFile.
+From OM Require Import Base.Lists Base.Ops Base.Wire Geom.GeomModel Geom.CondFile Geom.GeomFile.
 Local Open Scope Z_scope.
 
 Definition getTri : dec (nat * nat * nat) := do a <- getN; do b <- getN; do c <- getN; ret (a, b, c).
@@ -13,20 +13,31 @@ Definition getBound : dec (bool * nat) := do s <- getZ; do i <- getN; ret (negb 
 Definition getDomain : dec (list (bool * nat)) := do n <- getN; getMany n getBound.
 Definition getBools (n : nat) : dec (list bool) := do l <- getZs n; ret (map (fun z => negb (z =? 0)) l).
 
-(* conductivity file: has_cond, header ok, lines (kind 0 comment / 1 entry, name id), domain name ids *)
-Record c11cond := mkCC { cc_has : bool; cc_header : bool; cc_lines : list (Z * nat); cc_names : list nat }.
-Record c11case := mkCase { c_old : bool; c_desc : desc; c_isign : list Z; c_probes : list (list bool); c_cond : c11cond }.
+(* conductivity file: has_cond, header ok, lines (kind 0 comment / 1 entry, name id) *)
+Record c11cond := mkCC { cc_has : bool; cc_header : bool; cc_lines : list (Z * nat) }.
+Record c11case := mkCase { c_old : bool; c_file : gfile; c_numnames : list nat; c_isign : list Z; c_probes : list (list bool); c_cond : c11cond }.
+
+Definition getOptName : dec (option nat) := do h <- getZ; do n <- getN; ret (if h =? 0 then None else Some n).
+Definition getSgn : dec sgn := do s <- getZ; ret (if s =? 1 then SPlus else if s =? 2 then SMinus else SNone).
+Definition getSTok : dec (sgn * nat) := do s <- getSgn; do n <- getN; ret (s, n).
+Definition getDTok : dec dtok := do k <- getZ; do t <- getSTok; ret (if k =? 0 then DTok t else DShared).
+Definition getNamedMesh : dec (option nat * mesh) := do g <- getOptName; do m <- getMesh; ret (g, m).
+Definition getNamedIface : dec (option nat * list (sgn * nat)) := do g <- getOptName; do n <- getN; do ts <- getMany n getSTok; ret (g, ts).
+Definition getNamedDomain : dec (nat * list dtok) := do g <- getN; do n <- getN; do ts <- getMany n getDTok; ret (g, ts).
 
 Definition getCase : dec c11case :=
   do old <- getZ;
-  do nm <- getN; do ms <- getMany nm getMesh;
-  do ni <- getN; do ifs <- getMany ni getIface;
-  do ss <- getZs ni;
-  do nd <- getN; do ds <- getMany nd getDomain;
-  do np <- getN; do ps <- getMany np (getBools ni);
+  do v <- getZ; do hm <- getZ;
+  do nm <- getN; do ms <- getMany nm getNamedMesh;
+  do ni <- getN; do ifs <- getMany ni getNamedIface;
+  let nif := if hm =? 0 then nm else ni in
+  do ss <- getZs nif;
+  do nd <- getN; do ds <- getMany nd getNamedDomain;
+  do nn <- getN; do nns <- getNs nn;
+  do np <- getN; do ps <- getMany np (getBools nif);
   do hc <- getZ; do hd <- getZ; do nl <- getN; do ls <- getMany nl (do k <- getZ; do n <- getN; ret (k, n));
-  do nms <- getNs nd;
-  ret (mkCase (negb (old =? 0)) (mkDesc ms ifs ds) ss ps (mkCC (negb (hc =? 0)) (negb (hd =? 0)) ls nms)).
+  let f := mkGFile (if v =? 0 then V10 else V11) (if hm =? 0 then None else Some ms) (if hm =? 0 then ms else []) ifs ds in
+  ret (mkCase (negb (old =? 0)) f nns ss ps (mkCC (negb (hc =? 0)) (negb (hd =? 0)) ls)).
 
 Definition zb (b : bool) : Z := if b then 1 else 0.
 Definition zopt (o : option nat) : Z := match o with Some k => zn k | None => -1 end.
@@ -64,16 +75,24 @@ Fixpoint build_lines (ks : list (Z * nat)) (fs : list F) : list (cline F) :=
   end.
 
 (* Geometry::load(geom) leaves every conductivity at -1; load(geom,cond) attaches them by name *)
-Definition conductivities (c : c11case) (fs : list F) : option (list F) :=
+Definition conductivities (c : c11case) (names : list nat) (fs : list F) : option (list F) :=
   let cc := c_cond c in
-  if cc_has cc then load_cond (cc_header cc) (build_lines (cc_lines cc) fs) (cc_names cc)
-  else Some (map (fun _ => fofZ o (-1)) (cc_names cc)).
+  if cc_has cc then load_cond (cc_header cc) (build_lines (cc_lines cc) fs) names
+  else Some (map (fun _ => fofZ o (-1)) names).
+
+Definition load_all (c : c11case) (fs : list F) : option (geom * list F) :=
+  match parse_geom (fun k => nth k (c_numnames c) 0%nat) (c_file c) with
+  | None => None
+  | Some p => match load_geom (p_desc p) (c_isign c), conductivities c (p_domain_names p) fs with
+              | Some g, Some conds => Some (g, conds)
+              | _, _ => None
+              end
+  end.
 
 Definition run_case (c : c11case) (fs : list F) : list Z * list F :=
-  match load_geom (c_desc c) (c_isign c), conductivities c fs with
-  | None, _ => ([ST_OTHER], [])
-  | _, None => ([ST_OTHER], [])
-  | Some g, Some conds =>
+  match load_all c fs with
+  | None => ([ST_OTHER], [])
+  | Some (g, conds) =>
     match ffinalize o g conds (c_old c) with
     | (StOk, Some fi) =>
       let mk := fi_marks fi in
